@@ -53,12 +53,12 @@ def run(ck, tier, seed):
             vlib.absorb(ck, h)
             if h.fault:
                 if "data race" in h.fault.get("report", "") or h.fault.get("kind") == "sanitizer":
-                    ck.extra["impl"]["%s#%d" % (font, rep)] = "ThreadSanitizer report"
+                    ck.extra.setdefault("impl", {})["%s#%d" % (font, rep)] = "ThreadSanitizer report"
                 return
             if not h.summary:
                 raise vlib.Broken("threads harness gave no summary")
             ck.traces += h.summary["extra"]["jobs"]
-            ck.extra["impl"]["%s#%d" % (font, rep)] = h.summary["extra"]
+            ck.extra.setdefault("impl", {})["%s#%d" % (font, rep)] = h.summary["extra"]
             rv = vlib.tlc("ThreadsTrace.tla", "ThreadsTrace.cfg", workers=1, env={"TRACE": trace}, timeout=3000, coverage=False, heap="16g")
             lines = open(trace).read().splitlines()
             if rv.violation:
